@@ -112,6 +112,10 @@ def execute(case: Case, prefix: t.Sequence[str] = (), bound: int = 0, reduce: bo
     _install()
     if chart is None and case.coro_factory is None:
         chart = case.chart_factory() if case.chart_factory else codegen.chart(case.spec, case.collab)
+    # 'chart_per_run': every run gets its own chart and DAG object, built from the SAME node classes (C08: "charts sharing
+    # node classes"); run 0 uses `chart`
+    charts = [chart] + [codegen.chart(case.spec, case.collab) for _ in range(len(case.inputs) - 1)] \
+        if case.collab.get('chart_per_run') and case.coro_factory is None else None
     world = W.World(case.plans, case.collab)
     W.CUR = world
     nruns = len(case.inputs)
@@ -130,9 +134,10 @@ def execute(case: Case, prefix: t.Sequence[str] = (), bound: int = 0, reduce: bo
                 W.RUN.set(rid)
                 if case.coro_factory is not None:
                     return await case.coro_factory()
+                ch = charts[rid] if charts is not None else chart
                 if case.collab.get('omit_pipeline_id'):
-                    return await chart.run(input_kwargs=given_inputs[rid], meta=given_meta[rid])
-                return await chart.run(pipeline_id=f'run{rid}', input_kwargs=given_inputs[rid], meta=given_meta[rid])
+                    return await ch.run(input_kwargs=given_inputs[rid], meta=given_meta[rid])
+                return await ch.run(pipeline_id=f'run{rid}', input_kwargs=given_inputs[rid], meta=given_meta[rid])
             tasks.append(loop.create_task(runner(), name=f'mc-run{rid}'))
         steps = 0
         cost = 0
